@@ -371,7 +371,7 @@ Proof.
   destruct (inb c (channels w)); cbn [negb]; [|discriminate].
   destruct (cv w c) as [v|].
   - intros H; injection H as <-. reflexivity.
-  - destruct (zdiv w c); [discriminate|]. intros H; injection H as <-.
+  - destruct (zdiv w c); [discriminate|]. destruct (kerr w c); [discriminate|]. intros H; injection H as <-.
     apply sample_vec_pointwise.
     exact Em.      (* [monotonic] and [sortedb] are the same fixpoint *)
 Qed.
